@@ -102,6 +102,13 @@ def opOf : Sexp → Option Op
       match (← namesOf ns) with
       | some l => pure (.refineNames (← pathOf h) l)
       | none => none
+  | .list [.atom "excludein", h, .list ks] => do pure (.excludeIn (← pathOf h) (← ks.mapM pathOf))
+  | .list [.atom "flattenin", h, .atom sep] => do pure (.flattenIn (← pathOf h) (← unhex sep))
+  | .list [.atom "unflattenin", h, .atom sep] => do
+      match (← unhex sep).toList with
+      | [c] => pure (.unflattenIn (← pathOf h) c)
+      | _ => none
+  | .list [.atom "updatetd", h, m] => do pure (.updateTd (← pathOf h) (← treeOf m))
   | .list [.atom "auto", h, bd] => do pure (.autoBatch (← pathOf h) (← optNat bd))
   | .list (.atom "update" :: h :: items) => do
       let its ← items.mapM fun (it : Sexp) => match it with
